@@ -203,6 +203,20 @@ fn tamper(cx: &mut Cx, verifier: NodeId, key: Arc<KeyMat>, p: Presentation) {
             }
         }
     }
+    // ... and LENGTHENED: the last entry of each array repeated (for an empty response list: a copy
+    // of s_1 appended) -- a verifier that reads the arrays by position never looks at the surplus
+    {
+        let v0 = parse(&p.proof_json);
+        let s1 = v0.pointer("/CL03/spok/s_1").cloned();
+        for (name, path) in [("spok.s_5", "/CL03/spok/s_5"), ("proofs_commited_mi", "/CL03/proofs_commited_mi"), ("range_proofs_commited_mi", "/CL03/range_proofs_commited_mi")] {
+            let mut v = v0.clone();
+            let Some(serde_json::Value::Array(a)) = v.pointer_mut(path) else { continue };
+            match (a.last().cloned(), name, &s1) { (Some(last), _, _) => a.push(last), (None, "spok.s_5", Some(x)) => a.push(x.clone()), _ => continue }
+            let mut q = p.clone(); q.proof_json = v.to_string();
+            cx.count("probe.subproof_array_lengthened");
+            deliver(cx, verifier, q, format!("forged_subproof_array_lengthened:{name}"), false);
+        }
+    }
     // every integer leaf of the serialized proof, a slice per run
     let v = parse(&p.proof_json);
     let ls = leaves(&v);
